@@ -160,13 +160,30 @@ func runUnit(file, unit, filterS, pkg string, attrs map[string]string, smtdir st
 			if !filter.MatchString(f.String()) {
 				continue
 			}
+			if fl := attrs["files"]; fl != "" {
+				base := filepath.Base(prog.Fset.Position(f.Pos()).Filename)
+				okf := false
+				for _, x := range strings.Split(fl, ",") {
+					if x == base {
+						okf = true
+					}
+				}
+				if !okf {
+					continue
+				}
+			}
+			if ex := attrs["exclude"]; ex != "" {
+				if m, _ := regexp.MatchString(ex, f.String()); m {
+					continue
+				}
+			}
 			ctr := all[short]
 			if ctr == nil {
 				ctr = all[f.String()]
 			}
 			if ctr != nil {
 				used[ctr.Func] = true
-				if ctr.Pure && len(ctr.Ensures) == 0 {
+				if ctr.Pure && len(ctr.Ensures) == 0 && attrs["verify_pure"] != "on" {
 					continue
 				}
 				verified[ctr.Func] = true
@@ -237,10 +254,14 @@ func runUnit(file, unit, filterS, pkg string, attrs map[string]string, smtdir st
 		}
 		rep.ContractText[c.Func] = contractTextOf(c)
 		switch {
+		case !usedContracts[c.Func] && !used[c.Func] && importedContracts[c.Func] != "":
+			// an imported contract this unit does not need
 		case !usedContracts[c.Func] && !used[c.Func]:
 			rep.UnusedContracts = append(rep.UnusedContracts, name)
-		case externContracts[c.Func]:
+		case externContracts[c.Func] && importedContracts[c.Func] == "":
 			rep.Externs = append(rep.Externs, name)
+		case importedContracts[c.Func] != "":
+			rep.Assumed = append(rep.Assumed, name+" [imported from "+importedContracts[c.Func]+"]")
 		case verified[c.Func]:
 			rep.Proved = append(rep.Proved, name)
 		default:
@@ -337,6 +358,15 @@ func main() {
 		}
 		if attrs["frames"] == "on" {
 			os.Setenv("GOVC_FRAME", "1")
+		}
+		if attrs["nilchecks"] == "on" {
+			nilFieldObs, sweepNil = true, true
+		}
+		if attrs["dispenser_variants"] == "on" {
+			autoDispenserVariants = true
+		}
+		if attrs["nonnil_params"] == "on" {
+			assumeNonNilParams = true
 		}
 		if attrs["havoc_unknown"] == "on" {
 			os.Setenv("GOVC_HAVOC_UNKNOWN", "1")
